@@ -246,7 +246,7 @@ def main():
     ap.add_argument("--scenario-timeout", type=float, default=120)
     ap.add_argument("--no-evidence", action="store_true")
     ap.add_argument("--no-shrink", action="store_true")
-    ap.add_argument("--selftest", action="store_true")
+    ap.add_argument("--no-selftest", action="store_true")
     a = ap.parse_args()
     if a.prop not in props.PROPS:
         print("unknown property", a.prop)
@@ -330,8 +330,47 @@ def check_main(a):
             except OSError:
                 pass
             herrors.append("worker %d exit status %s finished=%s\n%s" % (w, rc, finished, err))
-    runner._safe_rmtree(work)
     results.sort(key=lambda d: d["i"])
+    # 2b. obligations of the machinery itself
+    selftests = {}
+    if not a.no_selftest:
+        from cverif import selftest
+
+        try:
+            n_det = 12 if tier == "quick" else 64
+            cmp_n, mism = selftest.determinism_phase(prop, a.seed, min(n_det, count), results, work)
+            selftests["determinism_fresh_interpreters_compared"] = cmp_n
+            selftests["determinism_fresh_interpreters_mismatches"] = len(mism)
+            for m in mism[:3]:
+                herrors.append("nondeterminism across interpreters (PYTHONHASHSEED / worker split): " + m)
+            if prop == "C05":
+                q, mism = selftest.git_cross_validate(6 if tier == "quick" else 60, a.seed)
+                selftests["fake_git_queries_cross_validated_against_real_git"] = q
+                selftests["fake_git_mismatches"] = len(mism)
+                for m in mism[:3]:
+                    herrors.append("fake git disagrees with the real binary: " + m)
+            if prop == "C03" and tier != "quick":
+                warmup()
+                c, mism = selftest.real_vs_sim_outcomes(40, a.seed)
+                selftests["scenarios_cross_validated_against_real_bash_children"] = c
+                selftests["real_vs_simulated_outcome_mismatches"] = len(mism)
+                for m in mism[:3]:
+                    herrors.append("simulated outcome differs from real processes: %s" % (m,))
+            if prop == "C09" and tier != "quick":
+                runs, hangs, fails = selftest.real_soak()
+                selftests["real_process_soak_runs"] = runs
+                selftests["real_process_soak_hangs"] = hangs
+                selftests["real_process_soak_failures"] = fails
+                if hangs:
+                    results.append({"i": -1, "seed": -1, "violations": [
+                        {"property": "C09", "signature": "real-process-soak-hang",
+                         "detail": {"runs": runs, "hangs": hangs,
+                                    "what": "cond run //:all -j 8 on 60 trivial parallel tasks did not terminate within 20 s"},
+                         "step": None}], "nontrivial": False, "ntkeys": [], "reach": {}, "stats": {}, "digest": "soak",
+                        "full": "soak", "shape": "soak", "sim_seconds": 0, "wall": 0, "extra_evals": runs})
+        except BaseException as ex:  # noqa
+            herrors.append("selftest failed: " + "".join(traceback.format_exception(ex))[-1500:])
+    runner._safe_rmtree(work)
     # 3. property-specific extra phase (enumerations) runs inside the profile's execute/check
     known = load_known()
     all_res = corpus_results + results
@@ -391,7 +430,7 @@ def check_main(a):
             exit_code = 2
     wall = REAL_TIME() - t0
     if not a.no_evidence:
-        write_evidence(prop, P, tier, a.seed, all_res, results, reported, n_known, wall, herrors)
+        write_evidence(prop, P, tier, a.seed, all_res, results, reported, n_known, wall, herrors, selftests)
     nt = len({(d["shape"], d["digest"]) for d in all_res if d["nontrivial"]})
     print("%s %s: %d scenarios (%d corpus), %d distinct non-trivial, %d violation signature(s), %d known, "
           "%d harness error(s), %.1fs" % (prop, tier, len(all_res), len(corpus_results), nt, len(reported),
@@ -399,7 +438,7 @@ def check_main(a):
     return exit_code
 
 
-def write_evidence(prop, P, tier, seed, all_res, results, reported, n_known, wall, herrors):
+def write_evidence(prop, P, tier, seed, all_res, results, reported, n_known, wall, herrors, selftests=None):
     faults, reach, stats = {}, {}, {}
     for d in all_res:
         for k, v in d.get("stats", {}).items():
@@ -444,6 +483,7 @@ def write_evidence(prop, P, tier, seed, all_res, results, reported, n_known, wal
                                 "tar", "kernel pipes"],
             "components_stub": ["task processes (scripted)", "process table / waitpid / getpgid / killpg",
                                 "signal delivery", "clock", "git binary", "thread scheduler of the tee pool"],
+            "selftests": selftests or {},
             "known_findings_seen": n_known,
             "harness_errors": len(herrors),
             "exhaustive": False,
